@@ -537,7 +537,13 @@ def run_check(check, tier="quick", seed=None, budget_s=None, njobs=None, max_run
         "wall_s": round(wall, 2),
         "violations": new_violation_count,
     }
-    evp = os.path.join(EVIDENCE_DIR, f"{check.property_id}.json")
+    evdir = EVIDENCE_DIR
+    alt = os.environ.get("VERIF_REPO_SRC")
+    if alt and os.path.realpath(alt) != os.path.realpath("/repo/src"):
+        # a run against another source tree (a seeded change, a snapshot) must not overwrite the evidence of /repo itself
+        evdir = os.path.join("/dev/shm" if os.path.isdir("/dev/shm") else "/tmp", "verif-evidence-alt")
+        os.makedirs(evdir, exist_ok=True)
+    evp = os.path.join(evdir, f"{check.property_id}.json")
     tmp = evp + f".tmp{os.getpid()}"
     with open(tmp, "w") as f:
         json.dump(evidence, f, indent=1, default=_json_default)
